@@ -45,9 +45,11 @@ struct H {
   int fd; char link[80];           /* res 0: descriptor libuv owns for this handle */
   int afd; char alink[80];         /* res 1: accepted_fd */
   int efd;                         /* poll: the harness's eventfd */
-  char path[160]; int bound;       /* res 3: bound socket path; also the watched path */
+  char path[300]; int bound;       /* res 3: the socket file the bind created (as found in the directory); also the watched path */
   int watch, epoll, sigact;        /* res 4, 5, 6 */
   int signum, port, pid, listening, fp_started;
+  int blocked;                     /* udp: sendmsg/sendmmsg on this handle answer EAGAIN */
+  int rawfd;                       /* pipe: the harness's raw end of a socketpair */
   int wreq[MAXR]; size_t wsize[MAXR]; int wn, whead; size_t acc;  /* writes/sends not yet finished at the syscall */
 };
 struct R { int id, hid, done; char kind; void* uv; };
@@ -115,6 +117,40 @@ static int fdinfo_count(int fd, const char* prefix) {
   while (fgets(line, sizeof line, f)) if (strncmp(line, prefix, strlen(prefix)) == 0) n++;
   fclose(f); return n;
 }
+/* is there an entry of this name in the case's working directory? (scan, not stat) */
+static int dir_has(const char* name) {
+  DIR* d = opendir("."); struct dirent* e; int found = 0;
+  if (!d) return 0;
+  while ((e = readdir(d))) if (strcmp(e->d_name, name) == 0) found = 1;
+  closedir(d); return found;
+}
+/* the names in the working directory, '\n'-separated */
+static void dir_list(char* out, size_t n) {
+  DIR* d = opendir("."); struct dirent* e; size_t k = 0;
+  out[0] = 0; if (!d) return;
+  while ((e = readdir(d))) {
+    size_t l = strlen(e->d_name);
+    if (e->d_name[0] == '.' && (l == 1 || (l == 2 && e->d_name[1] == '.'))) continue;
+    if (k + l + 2 >= n) break;
+    memcpy(out + k, e->d_name, l); k += l; out[k++] = '\n'; out[k] = 0;
+  }
+  closedir(d);
+}
+/* the entry that is in the directory now but not in the listing [before] */
+static int dir_new(const char* before, char* out, size_t n) {
+  static char now[1 << 15]; char* p; char* save = NULL; int cnt = 0;
+  dir_list(now, sizeof now);
+  for (p = strtok_r(now, "\n", &save); p; p = strtok_r(NULL, "\n", &save)) {
+    const char* q = before; size_t l = strlen(p); int seen = 0;
+    while (*q) {
+      const char* e = strchr(q, '\n'); size_t m = e ? (size_t) (e - q) : strlen(q);
+      if (m == l && memcmp(q, p, l) == 0) { seen = 1; break; }
+      q = e ? e + 1 : q + m;
+    }
+    if (!seen) { if (cnt == 0) snprintf(out, n, "%s", p); cnt++; }
+  }
+  return cnt;
+}
 static int inotify_watches(void) {
   DIR* d = opendir("/proc/self/fd"); struct dirent* e; char l[80]; int n = 0;
   while ((e = readdir(d))) {
@@ -181,14 +217,14 @@ static void sent(struct H* h, int n, int err) {
 }
 ssize_t __wrap_sendmsg(int fd, const struct msghdr* m, int fl) {
   struct H* h = udp_of(fd); ssize_t r; int e;
-  if (h && udp_block) { errno = EAGAIN; return -1; }
+  if (h && (udp_block || h->blocked)) { errno = EAGAIN; return -1; }
   r = __real_sendmsg(fd, m, fl); e = errno;
   if (h) sent(h, r >= 0 ? 1 : -1, e);
   errno = e; return r;
 }
 int __wrap_sendmmsg(int fd, struct mmsghdr* m, unsigned n, int fl) {
   struct H* h = udp_of(fd); int r, e;
-  if (h && udp_block) { errno = EAGAIN; return -1; }
+  if (h && (udp_block || h->blocked)) { errno = EAGAIN; return -1; }
   r = __real_sendmmsg(fd, m, n, fl); e = errno;
   if (h) sent(h, r, e);
   errno = e; return r;
@@ -263,7 +299,7 @@ static void on_close(uv_handle_t* p) {
     /* resources: gone by now? */
     if (h->fd >= 0 && h->kind != 'o' && link_open(h->link)) tok("L%d,0", h->id);
     if (h->afd >= 0 && link_open(h->alink)) tok("L%d,1", h->id);
-    if (h->bound && access(h->path, F_OK) == 0) tok("L%d,3", h->id);
+    if (h->bound && dir_has(h->path)) tok("L%d,3", h->id);
     if (h->watch) {
       int others = 0;
       for (i = 0; i < nh; i++) if (i != h->id && HT[i].watch && !HT[i].closing) others++;
@@ -404,7 +440,7 @@ static void op_init(char k, int variant) {
   struct H* h; int rc = 0;
   if (nh >= MAXH || handle_size(k) == 0) return;
   h = &HT[nh]; memset(h, 0, sizeof *h);
-  h->id = nh; h->kind = k; h->fd = h->afd = h->efd = -1;
+  h->id = nh; h->kind = k; h->fd = h->afd = h->efd = h->rawfd = -1;
   h->uv = calloc(1, handle_size(k));
   switch (k) {
   case 't': rc = uv_timer_init(loop, (uv_timer_t*) h->uv); break;
@@ -517,13 +553,55 @@ static void op_listen(int i) {
     uv_tcp_getsockname((uv_tcp_t*) h->uv, (struct sockaddr*) &a, &l); h->port = ntohs(a.sin_port);
     rc = uv_listen((uv_stream_t*) h->uv, 8, conn_cb);
   } else if (h->kind == 'P') {
-    snprintf(h->path, sizeof h->path, "%s/p%d_%d.sock", scratch, (int) getpid(), i);
-    rc = uv_pipe_bind((uv_pipe_t*) h->uv, h->path);
-    if (rc) { tok(".bind%d", rc); return; }
-    note_fd(h); h->bound = 1; tok("B%d,3", i);
+    { static char before[1 << 15]; char name[64];
+      snprintf(name, sizeof name, "p%d.sock", i);
+      dir_list(before, sizeof before);
+      rc = uv_pipe_bind((uv_pipe_t*) h->uv, name);
+      if (rc) { tok(".bind%d", rc); return; }
+      note_fd(h);
+      if (dir_new(before, h->path, sizeof h->path) > 0) { h->bound = 1; tok("B%d,3", i); } }
     rc = uv_listen((uv_stream_t*) h->uv, 8, conn_cb);
   } else return;
   if (rc) tok(".listen%d", rc); else h->listening = 1;
+}
+
+/* uv_pipe_bind2 with a name of [len] bytes (relative to the case's directory), optionally listen */
+static void op_bind_long(int i, int len, int nt, int lst) {
+  struct H* h; static char before[1 << 15]; char name[512]; int rc, k;
+  if (!live(i)) return;
+  h = &HT[i];
+  if (h->kind != 'P' || h->listening || h->fd >= 0 || len < 8 || len > 400) return;
+  k = snprintf(name, sizeof name, "s%d_", i);
+  memset(name + k, 'a' + i % 26, (size_t) (len - k)); name[len] = 0;
+  dir_list(before, sizeof before);
+  rc = uv_pipe_bind2((uv_pipe_t*) h->uv, name, (size_t) len, nt ? UV_PIPE_NO_TRUNCATE : 0);
+  if (rc) { tok(".bind%d", rc); return; }
+  note_fd(h);
+  /* what the bind really created is the ledger entry, not the name that was passed */
+  if (dir_new(before, h->path, sizeof h->path) > 0) { h->bound = 1; tok("B%d,3", i); }
+  if (lst) {
+    rc = uv_listen((uv_stream_t*) h->uv, 8, conn_cb);
+    if (rc) tok(".listen%d", rc); else h->listening = 1;
+  }
+}
+
+/* a pipe handle on one end of a socketpair whose other end the harness keeps */
+static void op_rawpair(int i) {
+  int sv[2];
+  if (!live(i) || HT[i].kind != 'P' || HT[i].fd >= 0) return;
+  if (socketpair(AF_UNIX, SOCK_STREAM | SOCK_CLOEXEC | SOCK_NONBLOCK, 0, sv)) return;
+  if (uv_pipe_open((uv_pipe_t*) HT[i].uv, sv[0])) { close(sv[0]); close(sv[1]); return; }
+  HT[i].rawfd = sv[1];
+  note_fd(&HT[i]);
+}
+static void op_rawdrain(int i) {     /* the peer reads everything there is: the handle becomes writable */
+  static char sink[1 << 16];
+  if (i < 0 || i >= nh || HT[i].rawfd < 0) return;
+  while (read(HT[i].rawfd, sink, sizeof sink) > 0) {}
+}
+static void op_rawsend(int i) {      /* the peer writes a byte: the handle becomes readable */
+  if (i < 0 || i >= nh || HT[i].rawfd < 0) return;
+  __real_write(HT[i].rawfd, "x", 1);
 }
 
 static void op_connect(int i, int srv, int rid) {
@@ -656,8 +734,8 @@ static void op_kill(int i) {
 static void do_ops(const char* ops, int in_cb) {
   char* copy = strdup(ops); char* save = NULL; char* t;
   for (t = strtok_r(copy, " \n", &save); t; t = strtok_r(NULL, " \n", &save)) {
-    int a = -1, b = -1, c = -1;
-    sscanf(t + 1, "%d,%d,%d", &a, &b, &c);
+    int a = -1, b = -1, c = -1, d4 = -1;
+    sscanf(t + 1, "%d,%d,%d,%d", &a, &b, &c, &d4);
     switch (t[0]) {
     case 'I': op_init(t[1] == 'y' ? 'x' : t[1], t[1] == 'y'); break;
     case 's': op_start(a, b < 0 ? 0 : b); break;
@@ -669,6 +747,11 @@ static void do_ops(const char* ops, int in_cb) {
     case 'j': op_connect(a, -1, b); break;
     case 'a': op_accept(a, b); break;
     case 'O': op_pair(a, b); break;
+    case 'L': op_bind_long(a, b, c > 0, d4 > 0); break;
+    case 'o': op_rawpair(a); break;
+    case 'e': op_rawdrain(a); break;
+    case 'v': op_rawsend(a); break;
+    case 'z': if (a >= 0 && a < nh) HT[a].blocked = b > 0; break;
     case 'r': op_start(a, 0); break;
     case 'w': op_write(a, b, c); break;
     case 'd': op_shutdown(a, b); break;
@@ -715,6 +798,10 @@ static int run_case(char* line) {
   /* warm-up so that process-wide descriptors (signal lock pipe, pool) exist before the base line */
   { uv_loop_t w; uv_work_t* q = malloc(sizeof *q); uv_loop_init(&w); uv_queue_work(&w, q, fence_work, free_work);
     uv_run(&w, UV_RUN_DEFAULT); uv_loop_close(&w); }
+  { static char casedir[300];
+    snprintf(casedir, sizeof casedir, "%s/c%d", scratch, (int) getpid());
+    mkdir(casedir, 0700);
+    if (chdir(casedir)) { printf("!chdir\n"); return 0; } }
   base_fds = count_fds();
   loop = &the_loop; uv_loop_init(loop);
   uv_prepare_init(loop, &mark_prepare); uv_prepare_start(&mark_prepare, mark_prepare_cb); uv_unref((uv_handle_t*) &mark_prepare);
@@ -739,6 +826,7 @@ static int run_case(char* line) {
   flush_y();
   /* wind down quietly: everything still open is closed, the loop must drain and close */
   quiet = 1; udp_block = 0;
+  for (i = 0; i < nh; i++) HT[i].blocked = 0;
   for (i = 0; i < nh; i++) if (HT[i].kind == 'x' && HT[i].pid) kill(HT[i].pid, SIGKILL);
   for (i = 0; i < nh; i++) if (live(i)) op_close(i);
   if (pool_blocked || fp_unfenced) pool_fence();
@@ -750,8 +838,16 @@ static int run_case(char* line) {
   rc = uv_loop_close(loop);
   if (rc) tok("!loop_close%d", rc);
   if (rawl_fd >= 0) { close(rawl_fd); for (i = 0; i < 4; i++) close(rawl_fill[i]); }
+  for (i = 0; i < nh; i++) if (HT[i].rawfd >= 0) close(HT[i].rawfd);
   if (rc == 0 && count_fds() != base_fds) tok("!fdleak%d", count_fds() - base_fds);
-  for (i = 0; i < nh; i++) { if (HT[i].path[0]) unlink(HT[i].path); }
+  { static char left[1 << 15]; char* q; char* sv = NULL; char cwd[300]; int nleft = 0;
+    /* every pipe handle is closed: no socket file created by a bind may be left in the directory */
+    dir_list(left, sizeof left);
+    for (q = left; *q; q++) if (*q == '\n') nleft++;
+    if (nleft) tok("!sockleft%d", nleft);
+    for (i = 0; i < nh; i++) { if (HT[i].path[0]) unlink(HT[i].path); }
+    for (q = strtok_r(left, "\n", &sv); q; q = strtok_r(NULL, "\n", &sv)) unlink(q);
+    if (getcwd(cwd, sizeof cwd) && chdir("..") == 0) rmdir(cwd); }
   printf("\n"); fflush(stdout);
   return 0;
 }
